@@ -152,5 +152,66 @@ theorem ReadyTransparent.accepts {e : Elem α β σ} {Inv : σ → Prop} (h : Re
         rw [hr]; exact h s _ _ hs
       simp [accepted, accNow, hv, this])
 
+/-! ### General serial composition: bounded response on both sides
+
+  `OfferMeasure a Ia ν Na`: while the producer offers (valid = 1, any `source.ready`), `a` offers on its source or
+  its offer measure `ν ≤ Na` strictly decreases — `a` answers a steady supply with an offer within `Na + 1` cycles.
+  `DelMeasure b Ib μ Bb` + `IdleMono`: under a ready consumer `b`'s delivery measure never increases in a cycle
+  without a delivery, whatever is (or is not) offered to it.
+  Then `a ⟫ b` has the delivery measure `μ_b · (Na + 1) + ν_a`: a delivery in every window of
+  `(Bb + 1) · (Na + 1)` cooperative cycles.  (The product is unavoidable: think of two cascaded up-converters.)
+  Every element with a delivery measure in this development is idle-monotone; the front elements are the case
+  `Na ≤ 1`, so this subsumes `Front.comp` up to the bound. -/
+
+structure OfferMeasure (a : Elem α β σ) (Ia : σ → Prop) (ν : σ → Nat) (Na : Nat) : Prop where
+  inv_step : ∀ s i, Ia s → Ia (a.step s i)
+  bound : ∀ s, Ia s → ν s ≤ Na
+  dec : ∀ s i, Ia s → i.valid = true → (a.fwd s true i.tok).1 = true ∨ ν (a.step s i) < ν s
+
+/-- Under a ready consumer the delivery measure does not increase in a cycle without a delivery. -/
+def IdleMono (b : Elem β γ τ) (Ib : τ → Prop) (μ : τ → Nat) : Prop :=
+  ∀ s i, Ib s → i.ready = true → 1 ≤ (b.delNow s i).length ∨ μ (b.step s i) ≤ μ s
+
+theorem OfferMeasure.comp {a : Elem α β σ} {b : Elem β γ τ} {Ia : σ → Prop} {Ib : τ → Prop}
+    {ν : σ → Nat} {Na : Nat} {μ : τ → Nat} {Bb : Nat}
+    (ha : OfferMeasure a Ia ν Na) (hb : DelMeasure b Ib μ Bb) (hm : IdleMono b Ib μ) :
+    DelMeasure (a.comp b) (fun s => Ia s.1 ∧ Ib s.2) (fun s => μ s.2 * (Na + 1) + ν s.1)
+      (Bb * (Na + 1) + Na) where
+  inv_step s i h := by
+    rw [comp_step]
+    exact ⟨ha.inv_step s.1 _ h.1, hb.inv_step s.2 _ h.2⟩
+  bound s h := by
+    have h1 := ha.bound s.1 h.1
+    have h2 : μ s.2 * (Na + 1) ≤ Bb * (Na + 1) := Nat.mul_le_mul_right _ (hb.bound s.2 h.2)
+    show μ s.2 * (Na + 1) + ν s.1 ≤ Bb * (Na + 1) + Na
+    omega
+  dec s i h hc := by
+    obtain ⟨hv, hr⟩ := hc
+    show 1 ≤ ((a.comp b).delNow s i).length ∨
+      μ ((a.comp b).step s i).2 * (Na + 1) + ν ((a.comp b).step s i).1 < μ s.2 * (Na + 1) + ν s.1
+    rw [comp_delNow, comp_step]
+    show 1 ≤ (b.delNow s.2 (compInB a b s i)).length ∨
+      μ (b.step s.2 (compInB a b s i)) * (Na + 1) + ν (a.step s.1 (compInA a b s i)) < μ s.2 * (Na + 1) + ν s.1
+    have hνb : ν (a.step s.1 (compInA a b s i)) ≤ Na := ha.bound _ (ha.inv_step s.1 _ h.1)
+    rcases ha.dec s.1 (compInA a b s i) h.1 hv with hoff | hdec
+    · -- `a` offers: `b` sees a cooperative cycle
+      have hcoopB : Coop (compInB a b s i) := by
+        refine ⟨?_, hr⟩
+        show (a.fwd s.1 i.valid i.tok).1 = true
+        rw [hv]; exact hoff
+      rcases hb.dec s.2 (compInB a b s i) h.2 hcoopB with h1 | h1
+      · exact Or.inl h1
+      · right
+        have h2 : (μ (b.step s.2 (compInB a b s i)) + 1) * (Na + 1) ≤ μ s.2 * (Na + 1) :=
+          Nat.mul_le_mul_right _ h1
+        rw [Nat.succ_mul] at h2
+        omega
+    · -- `a` is still working towards an offer: its measure drops, `b`'s does not rise
+      rcases hm s.2 (compInB a b s i) h.2 hr with h1 | h1
+      · exact Or.inl h1
+      · right
+        have h2 : μ (b.step s.2 (compInB a b s i)) * (Na + 1) ≤ μ s.2 * (Na + 1) := Nat.mul_le_mul_right _ h1
+        omega
+
 end Elem
 end Litex.Stream
